@@ -44,6 +44,28 @@ for d in sorted(glob.glob(os.path.join(root, 'seeded', '*'))):
     rows.append('| `%s` | %s | %s | %s |' % (m['seed'], m['breaks_property'], esc(m['needs_to_manifest']), esc(m['detected_by'])))
 seed_table = '\n'.join(rows)
 
+# ---- per property, from evidence
+lines = []
+for i in range(1, 21):
+    pid = 'C%02d' % i
+    ep = os.path.join(root, 'evidence', pid + '.json')
+    if not os.path.exists(ep):
+        continue
+    e = json.load(open(ep))
+    cov = e['coverage']
+    lines.append('**%s** — tier %s, %s evaluations, %s distinct outcome classes, %.1f s%s' % (
+        pid, e['tier'], format(cov['evaluations'], ','), format(cov['distinct_nontrivial'], ','), e['wall_s'],
+        '' if cov.get('exhaustive', True) else ' (a cap was hit: %s)' % '; '.join(cov.get('caps_hit', []))))
+    lines.append('')
+    for st in cov.get('stages', []):
+        sp = st.get('space', '')
+        lines.append('* `%s` — %s%s cases%s%s' % (
+            st['stage'], (esc(sp) + ' — ') if sp else '', format(st.get('cases', 0), ','),
+            (', %s classes' % format(st['distinct_outcome_classes'], ',')) if 'distinct_outcome_classes' in st else '',
+            (', %.1f s' % st['wall_s']) if 'wall_s' in st else ''))
+    lines.append('')
+perprop = '\n'.join(lines)
+
 def sub(name, body):
     global text
     pat = re.compile(r'(<!-- gen:%s -->\n).*?(\n<!-- /gen:%s -->)' % (name, name), re.S)
@@ -51,5 +73,6 @@ def sub(name, body):
     text = pat.sub(lambda m: m.group(1) + body + m.group(2), text)
 sub('fixes', fix_table)
 sub('seeded', seed_table)
+sub('perprop', perprop)
 open(design, 'w').write(text)
 print('fix commits:', nfix, 'seeded changes:', n)
